@@ -495,4 +495,33 @@ example : sendPacket (.control (.machineHorn true)) = [0x4C, 0x58, 0x52, 3, 0x45
 example : decode .target (List.replicate 24 0 ++ [9]) = .err := by decide
 example : (recvPacket .rotator 14 (List.replicate 13 0 ++ [7])).result = .err := by decide
 
+/-! ### the translator tie -/
+
+/-- TRANSLATION THEOREM: the ordered list of checks the translator reads off `Frame::try_from` in the current source
+(condition and error of each, in source order, then `Ok(Self::new(buffer[4], payload_length))`) computes the model's
+`parseHeader` for EVERY byte string.  The header theorems of this file are therefore about the parser the source defines
+now; an off-by-one in a bound or a range, a dropped or reordered check breaks this theorem or the recogniser. -/
+theorem C13_header_translation (b : List Nat) : parseHeaderT Consts.frameHeaderChecks b = some (parseHeader b) := by
+  unfold parseHeader
+  simp only [Consts.frameHeaderChecks, parseHeaderT, headerCond, HeaderError.ofCode?]
+  generalize b.getD 5 0 * 256 + b.getD 6 0 = len
+  generalize b.getD 3 0 = ver
+  generalize b.getD 4 0 = ty
+  generalize (b.drop 7).take 3 = pad
+  generalize b.take 3 = magic
+  generalize b.length = n
+  by_cases h1 : n ≠ protoBufferSize
+  · simp [h1]
+  · by_cases h2 : magic ≠ protoHeader
+    · simp [h1, h2]
+    · by_cases h3 : ver ≠ protoVersion
+      · simp [h1, h2, h3]
+      · by_cases h4 : len = 0
+        · simp [h1, h2, h3, h4]
+        · by_cases h5 : len > maxPayloadSize
+          · simp [h1, h2, h3, h4, h5]
+          · by_cases h6 : pad ≠ [0, 0, 0]
+            · simp [h1, h2, h3, h4, h5, h6]
+            · simp [h1, h2, h3, h4, h5, h6]
+
 end Glonax.Thm.C13
